@@ -29,7 +29,7 @@ TEXT = {
             "Each whole execution must end in one of five statuses with finite x,y,d or one of the four deliberate errors; anything else is a violation with signature (exception type, innermost pygradflow function).",
             "Supported set excludes Precision.Single, missing optional dependencies and argument combinations rejected by explicit checks (DESIGN 3.3)."),
     "C07": ("deterministic simulation with fault injection: k-th callback evaluation / factorisation / solve fails, region and x0 failures",
-            "Reference-then-perturb: every position of the evaluation and linear-solve sequences of short reference runs is failed once (enumeration), longer runs and multi-fault/region/x0 modes are sampled; per-trial and per-run oracles.",
+            "Reference-then-perturb: every position of the evaluation and linear-solve sequences of short reference runs is failed once (enumeration) - at the callback device, at the library's solver classes and one layer further down at scipy's gmres/minres/splu (made to give up the way scipy does) -, longer runs and multi-fault/region/x0 modes are sampled, a fifth of the worlds add a deadline; failures the underlying solver reports by itself are judged the same way; per-trial and per-run oracles.",
             "validate_input on (default); positions count inside solve(); faulted runs need not follow the reference trajectory, only never return wrong data."),
     "C08": ("deterministic simulation with crash-point enumeration: iteration budget k and deadline at clock read j vs. reference run",
             "Every iteration budget and every clock-read position of the deadline (incl. reads inside the exact Newton loop) of short reference runs is enumerated; stopped runs must be byte-exact prefixes with the right status, result, counters and path. A tenth of the worlds run the flow-integration solver under the same two limits (state after p integrations = end of the p-th path segment).",
@@ -47,7 +47,7 @@ TEXT = {
             "Over fault-free, faulted and limit-stopped runs with all penalty policies, the recorded trial log, the callback sequence and the result's counters/path/model_times/dist_factor must tell one story; observers that (un)register during a notification and a second solver object with a persistent observer are part of the schedule; under exact control the model-time increments are checked against the flow itself.",
             "Final-acceptance truth is the live penalty strategy's verdict (wrapped bound method)."),
     "C15": ("deterministic simulation with injected step failures: invariants over consecutive trials + independent implicit-Euler residual",
-            "Every consecutive pair of trials of every run (four controllers, injected failures in half the worlds, small lamb_max) is checked; exact-control accepted steps are re-evaluated by the reference flow model.",
+            "Every consecutive pair of trials of every run (four controllers, injected failures in half the worlds, small lamb_max, raised lamb_min, deadlines, re-entrant observers) is checked; the step size each trial's equations are really built with is read through the public step-solver hook; exact-control accepted steps are re-evaluated by the reference flow model.",
             "1e-8*sqrt(n) allowance for the code's active-set threshold, documented in DESIGN section 6."),
     "C16": ("deterministic simulation: history invariant over the penalty sequence seen by trials and by a callback observer",
             "Positivity, monotonicity, constant policy, dual-norm bound (relative to the first trial's penalty) and growth factor, change only after acceptance; observers include one that calls the solver's own single-step API from inside the callback.",
